@@ -179,6 +179,15 @@ def regex_layer_with_any_layer(ctx: Ctx, n: int):
             a = LA().layer("L1")
             a = a.have_modules_with_names_matching(pat) if by_regex else a.containing_modules(list(matched))
             return a.layer("L2").containing_modules([other])
+        # the model is faithful to the code here (K3b included): a change of behaviour inside the known-finding class still shows
+        # as a model / implementation disagreement
+        hs_m = [[("based_on", [("L1", "regex", pat) if by_regex else ("L1", "list", list(matched)), ("L2", "list", [other])]), ("layers_that",), ("named", "L1"), ("should_not",), (meth_m,)]
+                for by_regex in (True, False) for meth_m in ("access_any_layer", "be_accessed_by_any_layer")]
+        res_m, _pair = layers.eval_layer_histories(nodes, edges, hs_m)
+        for h_m, (io_m, mo_m) in zip(hs_m, res_m):
+            if not layers.same_layer_outcome(io_m, mo_m):
+                ctx.disagreement(dict(nodes=nodes, edges=edges, layers=[list(x) for x in h_m[0][1]], rule="L1 should_not " + h_m[-1][0], impl=[io_m[0], io_m[1][:200]], model=mo_m[0]),
+                                 f"model and implementation differ on an any-layer rule: impl={io_m[0]} model={mo_m[0]}")
         for meth in ("access_any_layer", "be_accessed_by_any_layer"):
             outs = []
             for by_regex in (True, False):
